@@ -136,6 +136,7 @@ type Event struct {
 	Ptr  Val
 	Looked []string // maps with a successful lookup on every path reaching this event
 	Func string
+	Stack []string // the inlined-call stack (outermost first) when the event happened
 	NAtoms int // number of path atoms in force when the event happened (Paths mode)
 	St     *State // fnreturn events: the state at the return
 }
@@ -632,4 +633,14 @@ func (v Val) SingleSym() (lin.Atom, bool) {
 		}
 	}
 	return 0, false
+}
+
+// Within reports whether the event happened in fn or in a helper (transitively) inlined into it.
+func (e Event) Within(fn string) bool {
+	for _, f := range e.Stack {
+		if f == fn {
+			return true
+		}
+	}
+	return e.Func == fn
 }
